@@ -214,7 +214,9 @@ def judge(ctx, base, law, C, X, eq):
             ch, sg, a = law['channel'], law['sign'], law['amount']
             hi = 100 if ch != 'alpha' else 1
             moved = C[ch] + sg * a
-            if moved < -1e-6 * hi or moved > hi * (1 + 1e-6):
+            # "nothing was clamped": decided from the reported channel (12 decimals).  A clamp by less than 1e-9 of the
+            # scale moves the colour by less than any tolerance used here (and than the 1e-11 of Sass equality * 255).
+            if moved < -1e-9 * hi or moved > hi * (1 + 1e-9):
                 ctx.stat('undo_clamped_not_judged')
                 return
             ctx.stat('undo_unclamped_judged')
